@@ -14,12 +14,17 @@ META = {
             "exactly rooted-clean(p) followed by rooted-clean(f) (no '', '.', '..' elements, inside the package, "
             "inside srcDir/outDir after env.src/env.out, also with the output suffixes); a file set is exactly "
             "explicit + (selected minus ignored), sorted and duplicate-free, and a directory ignore is the "
-            "segment-wise strictly-beneath relation.  The model is tied to the code by exhaustive small-string "
+            "segment-wise strictly-beneath relation; Go's path.Match and filepath.Match are modelled in full "
+            "(classes, escapes, multi-byte runes, ErrBadPattern; total, sound for the declarative reading, '*'/'?' "
+            "never match '/', '?' takes one rune), filepath.Glob level by level with its error paths, and source "
+            "trees with symbolic links (the recursive listing never follows one).  The model is tied to the code by exhaustive small-string "
             "and generated differential runs evaluated inside Coq, and by translator obligations on the "
             "source text of the resolution functions, the exclusion lists and the table of resolver calls.",
     "note": "Trusted: Coq kernel + vm_compute; translator gen/caco_names.go; harness and caco3/verif_names.go shim; "
-            "path.Match/filepath.Glob modelled on the fragment literals,'*','?' over ASCII names (classes/escapes "
-            "excluded); file system walk order and symlinks not modelled; docker-backed rules not run; no axioms.",
+            "path.Match/filepath.Match/filepath.Glob modelled after the Go 1.23 sources (completeness of the greedy "
+            "chunk loop is exercised, not proved); file system walk order not modelled; docker-backed rules (which "
+            "follow file symlinks when streaming inputs) not run; open finding: selections pass through linked "
+            "directories; no axioms.",
     "technique": "Coq proof (stack invariant of Clean, induction over segments) + go/ast translation of constants "
                  "and call table + vm_compute correspondence",
 }
@@ -418,15 +423,20 @@ def run(ck):
         trusted=["Coq 8.16.1 kernel + vm_compute",
                  "translator gen/caco_names.go (exclusion lists, suffixes, source text, resolver-call table)",
                  "harness/cmd/c12 + checks/c12.py comparison and oracle", "caco3/verif_names.go shim",
-                 "modelled not verified: path.Match/filepath.Glob (fragment literals * ?), filepath.WalkDir, "
-                 "filepath.Rel under srcDir, the OS file system"],
-        rule="exhaustive: path.Clean on every string over {a,b,.,/} up to length 7 (9 thorough); path.Join on all "
+                 "modelled not verified: path.Match, filepath.Match, filepath.Glob, filepath.WalkDir, "
+                 "utf8.DecodeRuneInString, filepath.Rel under srcDir, the OS file system"],
+        rule="exhaustive: path.Clean on every string over {a,b,.,/} up to length 6 and a seed-chosen quarter of length 7 (all up to 9 thorough); path.Join on all "
              "pairs/triples of short strings; makeRelPath/makePath on every name of <=4 segments from "
-             "{a,.,..,''} x 7 package paths; env.src/out; path.Match on patterns over {a,*,?,/}; rule "
+             "{a,.,..,''} x 7 package paths; env.src/out; path.Match AND filepath.Match on patterns over {a,*,?,/} "
+             "and over {a,b,[,],^,-,\\,*,?} up to length 3 plus a seed-chosen 1/16 of length 4, a class/escape "
+             "corpus, multi-byte and invalid UTF-8 (hex); file sets over trees with five kinds of symbolic link; "
+             "end-to-end builds with unclean repo-map keys and with linked packages; rule "
              "constructors with hostile strings; seeded random longer names; file sets on random consistent "
              "trees of <=5 files from a pool with shared prefixes x random select/ignore/files. A case is "
              "trivial when all its input strings are empty; distinct = distinct inputs",
-        assumptions=["ASCII names (path.Match '?' consumes a rune)", "package paths handed to constructors are "
-                     "what the loader produces (makeRelPath results); hostile package paths are still covered "
-                     "by the name theorems", "no symbolic links inside the source tree",
+        assumptions=["package paths handed to constructors are what the loader produces (makeRelPath results, now "
+                     "also for repo-map keys); hostile package paths are still covered by the name theorems",
+                     "symbolic links in the source tree are listed by name and lstat'ed, never opened, by the code "
+                     "run here; a link to a directory is passed by glob selections, by the root of a recursive "
+                     "selection and by explicit names (open finding)",
                      "glob selects list matched directories as well as files (as the code does)"])
